@@ -225,6 +225,7 @@ func checkC04(c *Ctx) {
 	c.checkKeyWriterPrecedence("O3 overlay-order")
 	// names and tags are delivered byte for byte, so the identity key must be built byte for byte too
 	c.checkKeyBytesFaithful("O3 byte-faithful-key")
+	c.checkPrivateKeyBuffer("O3 private-key-buffer")
 
 	// ---- O4 copy-on-ingress / immutability ---------------------------------------------------------
 	c.checkTagsIngress("O4 copy-on-ingress", merge, copySan)
